@@ -146,6 +146,11 @@ func compareMatchers(a compat.Matcher, g compat.Matcher, s string, st func(strin
 		cmp("MatchString", a.MatchString(s), g.MatchString(s))
 		cmp("MatchReader", a.MatchReader(strings.NewReader(s)), g.MatchReader(strings.NewReader(s)))
 		cmp("Find", a.Find(b), g.Find(b))
+		// the returned slices end where the match ends: an append must not reach into the caller's text
+		cmp("cap(Find)", cap(a.Find(b)), cap(g.Find(b)))
+		cmp("cap(FindSubmatch[i])", capsOf(a.FindSubmatch(b)), capsOf(g.FindSubmatch(b)))
+		cmp("cap(FindAll[i])", capsOf(a.FindAll(b, -1)), capsOf(g.FindAll(b, -1)))
+		cmp("cap(FindAllSubmatch[i][j])", capsOf2(a.FindAllSubmatch(b, 2)), capsOf2(g.FindAllSubmatch(b, 2)))
 		cmp("FindIndex", a.FindIndex(b), g.FindIndex(b))
 		cmp("FindReaderIndex", a.FindReaderIndex(strings.NewReader(s)), g.FindReaderIndex(strings.NewReader(s)))
 		cmp("FindReaderSubmatchIndex", a.FindReaderSubmatchIndex(strings.NewReader(s)), g.FindReaderSubmatchIndex(strings.NewReader(s)))
@@ -182,6 +187,22 @@ func compareMatchers(a compat.Matcher, g compat.Matcher, s string, st func(strin
 		return &c06Diff{"panic", bad, "no panic"}, false
 	}
 	return diff, false
+}
+
+func capsOf(x [][]byte) []int {
+	var out []int
+	for _, e := range x {
+		out = append(out, cap(e))
+	}
+	return out
+}
+
+func capsOf2(x [][][]byte) []int {
+	var out []int
+	for _, e := range x {
+		out = append(out, capsOf(e)...)
+	}
+	return out
 }
 
 // refAll computes FindAllStringSubmatchIndex(s,-1) with the executable
@@ -370,6 +391,9 @@ func replayC06(w core.Witness) string {
 	if reg, _ := w.Args["regression"].(string); reg == "reader-error" {
 		return runRegression("compat-reader-error")
 	}
+	if w.Kind == "text" {
+		return replayC06Text(w)
+	}
 	var ast gen.Node
 	if err := json.Unmarshal(w.AST, &ast); err != nil {
 		return "witness has no AST"
@@ -397,6 +421,7 @@ func runC06(r *core.Run) int {
 	nPat := r.Pick(7000, 150000)
 	nDirected := r.Pick(18, 30)
 	base := rand.New(rand.NewSource(r.Seed*122949829 + 6)).Int63()
+	runC06Text(r)
 	r.Parallel(nPat, func(i int, l *core.Local) {
 		rng := rand.New(rand.NewSource(base + int64(i)*1000003))
 		wb := rng.Intn(20) == 0
@@ -497,7 +522,7 @@ func runC06(r *core.Run) int {
 	})
 	r.Extras["bounds"] = map[string]any{"patterns": nPat, "exhaustive_len": 3, "directed_inputs_per_pattern": nDirected, "n": []int{-1, 0, 1, 2, 3}, "methods": 25}
 	return r.Finish(
-		"patterns printed from random ASTs restricted to the RE2-common constructs (literals and escapes, ., classes incl. \\d\\w\\s, \\p{..}, POSIX names, ^ $ \\A \\z, (?m)(?s), capturing / (?:) / (?P<n>) / (?<n>) groups, alternation incl. empty branches, greedy and lazy quantifiers with counts up to 50 over non-nullable bodies; 5% with \\b/\\B); patterns Go rejects are skipped; every Matcher method (22 + the three reader methods on a reader that fails half way, n in {-1,0,1,2,3}) of compat.Regexp (RE2 option) vs *regexp.Regexp on ASCII, multi-byte, invalid UTF-8 and empty inputs; evaluation = one (pattern,input); non-trivial = distinct (pattern,input) that Go matches",
+		"patterns printed from random ASTs restricted to the RE2-common constructs (literals and escapes, ., classes incl. \\d\\w\\s, \\p{..}, POSIX names, ^ $ \\A \\z, (?m)(?s), capturing / (?:) / (?P<n>) / (?<n>) groups, alternation incl. empty branches, greedy and lazy quantifiers with counts up to 50 over non-nullable bodies; 5% with \\b/\\B); patterns Go rejects are skipped; plus three families given as text: directly nested counted loops (?:X{m,n}){p,q} (a difference is accepted as the known multiplication of repeaters only when the adapter agrees with Go's regexp compiled from the multiplied pattern on every method), a class under a long count ({2}..{50}, exact, bounded or open) followed by a literal or small class on texts with runs of count-1, count and count+1 members, and negated / plain POSIX classes with and without (?i) against single runes; every Matcher method (22 + the three reader methods on a reader that fails half way, n in {-1,0,1,2,3}) of compat.Regexp (RE2 option) vs *regexp.Regexp on ASCII, multi-byte, invalid UTF-8 and empty inputs; evaluation = one (pattern,input); non-trivial = distinct (pattern,input) that Go matches",
 		[]string{"Go's regexp is the oracle", "classes whose members are exactly one case-fold orbit ([aA]) are left out: Go's parser merges the folded literal it makes of them with a plain literal during alternation factoring ([aA]x|A matches \"a\" in Go)", "known divergences (Unicode \\b, named-group numbering, the \\B auto-atomic rewrite) are suppressed only when the explained-by recomputation reproduces both engines"},
 		map[string]int64{"evaluations": 20000, "distinct_nontrivial": 5000, "method_FindAllStringSubmatchIndex(n=-1)": 20000})
 }
